@@ -334,10 +334,10 @@ def run(tier, seed):
             if not binary:
                 rep.violation(dict(kind="build", clause=hname, has_input=True), "harness %s does not compile: %s" % (hname, err[-600:]), dict(stderr=err))
                 continue
-            ntrees = int((28 if tier == "quick" else 600) * share)
-            nrand = 3 if tier == "quick" else int(40 * share)
+            ntrees = int((28 if tier == "quick" else 220) * share)
+            nrand = 3 if tier == "quick" else int(16 * share)
             run_single(rep, binary, tier, seed, sdir, rt, ntrees, nrand)
-            run_tsm(rep, binary, tier, seed, sdir, rt, int((24 if tier == "quick" else 220) * share), 2 if tier == "quick" else int(12 * share))
+            run_tsm(rep, binary, tier, seed, sdir, rt, int((24 if tier == "quick" else 120) * share), 2 if tier == "quick" else int(8 * share))
         rep.coverage["rule"] = ("real TbfOpenmpAlgorithm(Tsm) on the mock GOMP runtime, real TbfSmSpecxAlgorithm(Tsm) and TbfSmStarpuAlgorithm(Tsm) on API-compatible mock runtimes: per tree the schedules "
                                 "immediate, all-deferred FIFO, LIFO, priority, priority-inverted and random linear extensions (commute groups unordered), worker counts 1,2,3,8,16, full and staged flag sets; "
                                 "trees d=1..3; oracles: values/trace = sequential, declared accesses cover each task's footprint, every conflicting pair of tasks ordered or mutually exclusive; "
